@@ -97,7 +97,7 @@ def run(ctx):
     ctx.prove()
     if ctx.thorough():
         ctx.leanchecker()
-    sizes = [250] * 16 if ctx.thorough() else [70, 70]
+    sizes = [150] * 10 if ctx.thorough() else [70, 70]
     if ctx.broken:
         sizes = sizes * 2
     batches = S.run_batches(ctx, "C03", {"layout", "lookups"}, sizes, ptr_embed=True)
